@@ -11,7 +11,7 @@ S=$(mktemp -d /tmp/ing.XXXXXX)
 git -C /repo worktree add -q --detach "$S/w" HEAD || exit 2
 cd "$S/w"
 SK_REPO="$S/w" PYTHONPATH="$S/w" setsid timeout -s KILL 300 /venv/bin/python "$demo" > "$S/demo_clean.log" 2>&1; rc_clean=$?
-if ! git apply "$src/patch.diff"; then echo "$prop-$n: PATCH DOES NOT APPLY"; cd /; git -C /repo worktree remove --force "$S/w"; rm -rf "$S"; exit 2; fi
+if ! git apply "$src/patch.diff" 2>/dev/null && ! git apply --3way "$src/patch.diff"; then echo "$prop-$n: PATCH DOES NOT APPLY"; cd /; git -C /repo worktree remove --force "$S/w"; rm -rf "$S"; exit 2; fi
 SK_REPO="$S/w" PYTHONPATH="$S/w" setsid timeout -s KILL 300 /venv/bin/python "$demo" > "$S/demo_mut.log" 2>&1; rc_mut=$?
 PYTHONPATH="$S/w" setsid timeout -s KILL 900 /venv/bin/python -m pytest -q -p no:cacheprovider --timeout=900 > "$S/suite.log" 2>&1
 suite=$(tail -1 "$S/suite.log")
